@@ -31,6 +31,7 @@ func createLockFile(name string, perm os.FileMode) (LockFile, bool, error) {
 		// The previous holder removes the lock file before it releases the lock. If that
 		// happened after the file was opened here, the lock is held on a file the path no
 		// longer names and the next process is free to create and lock a new one.
+		verifYield("lock.verify")
 		if locked, err := f.Stat(); err == nil {
 			if current, err := os.Stat(name); err == nil && os.SameFile(locked, current) {
 				verifYield("lock.acquired")
